@@ -1,6 +1,8 @@
 """C02: tiny-std RwLock - writer exclusion, reader sharing, visibility, no lost wake-up for any
 reader/writer mix, try_read/try_write never block and succeed only when the lock state admits them.
-Oracles and workload: engines/h_locks (harness) + engines/h_locks/driver.py (Miri, native, TSan)."""
+Oracles and workload: engines/h_locks (harness) + engines/h_locks/driver.py (Miri, native, TSan).
+Each native process also runs the reader-count boundary battery (reader_limit_battery in the harness):
+signatures C02/reader-limit/{admitted-beyond-max,try-write-admitted-with-readers,count-not-restored,count-drift}."""
 import os
 import sys
 
